@@ -294,7 +294,8 @@ def cmd_run(args):
         import fnmatch
         m = [n for n in registry.HARNESSES if fnmatch.fnmatch(n, pat)]
         names += m if m else [pat]
-    insts = [Instance(n, cfg=args.cfg, defs=defs, cap=args.cap, rss=args.rss) for n in names]
+    insts = [Instance(n, cfg=args.cfg, defs=defs, cap=args.cap, rss=args.rss,
+                      flags=(["--unwind", str(args.unwind)] if args.unwind else None)) for n in names]
     workdir = os.path.join(core.BUILD_ROOT, "run-%d" % os.getpid())
     os.makedirs(workdir, exist_ok=True)
     bad = 0
@@ -355,6 +356,7 @@ def main(argv):
     r.add_argument("--cfg", default="s")
     r.add_argument("-D", action="append")
     r.add_argument("--cap", type=int, default=None)
+    r.add_argument("--unwind", type=int, default=None)
     r.add_argument("--rss", type=float, default=None)
     r.add_argument("--nocache", action="store_true")
     r.add_argument("--nowitness", action="store_true")
